@@ -14,6 +14,8 @@ import (
 	"sync/atomic"
 	"time"
 
+	"mvdan.cc/sh/v3/syntax"
+
 	"verif/mc/oracle"
 	"verif/mc/synt"
 	"verif/mc/vc"
@@ -214,7 +216,7 @@ var c26DirSeq atomic.Int64
 const c26Timeout = 60 * time.Second
 
 func c26Interp(src, dir string) oracle.InterpResult {
-	return oracle.RunInterp(src, oracle.InterpOpts{Dir: dir, Env: c26Env, NoExec: true, Timeout: 5 * time.Second})
+	return oracle.RunInterp(src, oracle.InterpOpts{Dir: dir, Env: c26Env, NoExec: true, Timeout: 10 * time.Second})
 }
 
 func c26(c *vc.Ctx) {
@@ -230,7 +232,7 @@ func c26(c *vc.Ctx) {
 		"bash 5.2.15 is the oracle; stderr is ignored on both sides; environment LC_ALL=C.utf8 PATH=/nonexistent HOME=/nonexistent, stdin empty, cwd a fresh scratch directory",
 		"external commands are unavailable on both sides (interp: exec handler returning 127; bash: empty PATH), so only builtins run",
 		"for throughput a batch of programs runs as `( cd dir; program ) 2>/dev/null` subshells of one bash process; every disagreement is re-judged with the program as the script of its own bash process before it is reported, so batching can hide but never invent a divergence",
-		"a program on which bash or the interpreter exceeds its hang guard (interpreter 5 s, bash 60 s) is counted as skipped_timeout, not judged",
+		"a program on which bash or the interpreter exceeds its hang guard (interpreter 10 s, bash 60 s) is counted as skipped_timeout, not judged",
 	}
 	root, err := os.MkdirTemp("", "c26-")
 	if err != nil {
@@ -252,8 +254,17 @@ func c26(c *vc.Ctx) {
 			stride, _ = strconv.Atoi(v)
 			c.CapNote("VERIF_C26_STRIDE=%d restricts the enumeration", stride)
 		}
-		c26GenPrograms(thorough, func(desc, src string) {
-			if filter != "" && !strings.Contains(desc, filter) {
+		genProgs := c26GenPrograms
+		if os.Getenv("VERIF_C26_NOGRAMMAR") != "" { // development aid
+			genProgs = func(bool, func(string, string)) {}
+			c.CapNote("VERIF_C26_NOGRAMMAR is set")
+		}
+		genProgs(thorough, func(desc, src string) {
+			if filter == "@plain" {
+				if strings.ContainsAny(desc, "(;") {
+					return
+				}
+			} else if filter != "" && !strings.Contains(desc, filter) {
 				return
 			}
 			seq++
@@ -298,7 +309,22 @@ func c26(c *vc.Ctx) {
 				continue
 			}
 			if ires[i].Fatal != "" && !ires[i].Panicked && strings.Contains(ires[i].Fatal, "deadline") {
+				if os.Getenv("VERIF_DEBUG") != "" {
+					fmt.Fprintf(os.Stderr, "interp timeout: [%s] %q\n", t.Desc, t.Src)
+				}
 				c.Count("skipped_timeout", 1)
+				continue
+			}
+			if os.Getenv("VERIF_C26_CACHEONLY") != "" { // development aid
+				r, ok := c26CacheGet("S\x00" + t.Src)
+				if !ok {
+					r, ok = c26CacheGet("B\x00" + t.Src)
+				}
+				if !ok {
+					c.Count("skipped_not_cached", 1)
+					continue
+				}
+				bres[i], judged[i] = r, true
 				continue
 			}
 			if t.Kind == "g" && len(batch) > 1 {
@@ -357,7 +383,7 @@ func c26(c *vc.Ctx) {
 				c.Sample(map[string]any{"desc": t.Desc, "src": t.Src, "stdout": ir.Stdout, "status": ir.Status})
 				continue
 			}
-			if len(batch) > 1 && t.Kind == "g" {
+			if len(batch) > 1 && t.Kind == "g" && os.Getenv("VERIF_C26_CACHEONLY") == "" {
 				// confirm with a bash process of its own before reporting
 				r, err := c26Bash(t.Src, mk("c", i, true), c26Timeout)
 				if err != nil {
@@ -376,8 +402,11 @@ func c26(c *vc.Ctx) {
 					continue
 				}
 			}
-			class := c26Classify(t, ir, br, func(src string) oracle.InterpResult {
-				return c26Interp(src, mk("x", i, true))
+			class := c26Classify(t, ir, br, func(f *syntax.File) oracle.InterpResult {
+				d := mk("x", i, true)
+				os.RemoveAll(d)
+				os.Mkdir(d, 0o755)
+				return oracle.RunInterpFile(f, oracle.InterpOpts{Dir: d, Env: c26Env, NoExec: true, Timeout: 10 * time.Second})
 			})
 			fails[i] = &vc.Fail{
 				Key:   fmt.Sprintf("%q interp=%d:%q", t.Src, ir.Status, ir.Stdout),
